@@ -220,7 +220,8 @@ Section Ok.
       pose proof (call_kinds (r_cfg r) (lookup r) (r_now r) (r_dealer r) s req opts proc args kw oracle) as CK.
       destruct (call _ _ _ _ _ _ _ _ _ _ _) as [d o|o|d callee o] eqn:Ecall.
       + cbn [seg_ok]. split; [intros m Hm0; left; now apply CK|exact Logic.I].
-      + subst o. eapply ok_end_leave; eauto; [apply bside_refl|]. now apply End.
+      + subst o. destruct (call_abort_realm_wf r s req opts proc oracle k W I) as (Wa & Ia & _). cbv zeta in Wa, Ia.
+        eapply ok_end_leave; [exact Wa|exact Ia|apply bside_set_dealer|]. now apply End.
       + destruct (call_invoked_wf r s req opts proc args kw oracle k d callee o W I Hk Hs Ecall) as (W2 & J2 & _ & _ & Hcl).
         destruct (update_session_frame (r_set_dealer r d) callee) as (A1 & _ & A2 & _).
         change (r_cfg r) with (r_cfg (r_set_dealer r d)). change (r_broker r) with (r_broker (r_set_dealer r d)).
